@@ -159,3 +159,28 @@ def run_pipe(ctx):
     if c.get("reply_leased", 0) < 3 or c.get("reply_current", 0) < len(picked) or c.get("referrals_logged", 0) < 2 * len(picked):
         raise vf.MachineryError("C08 pipeline replay is vacuous: %s" % c)
     return tot
+
+
+run_pipeline = run_pipe   # the name checks/c08.py looks for when it imports the pipeline tier
+
+
+def replay_pipe(ctx, path):
+    """Focused replay of one recorded violation (the recorded scenario script, run 3 times:
+    the oracle is timing based, so a single green run does not retract a recorded red one)."""
+    with open(path) as f:
+        rec = json.load(f)
+    sc = (rec.get("replay") or {}).get("scenario")
+    if not isinstance(sc, dict) or "steps" not in sc:
+        return False
+    ctx.tlc(MOD, "MC_LP.tla", "MC_LP_quick.cfg", workers=6, timeout=900, heap="6g")   # the property statement the replay is judged by
+    scs = []
+    for k in range(3):
+        c = dict(sc)
+        c["id"] = "%s-r%d" % (sc.get("id"), k)
+        scs.append(c)
+    res = ctx.go_driver("./c08pipe", "TestLeasePipeline", {"scenarios": scs, "workers": 3}, name="c08pipe_replay", timeout=900)
+    ctx.take_driver_result(res, "[C08 pipeline, replay] ")
+    ctx.note_case("replay:" + str(sc.get("id")))
+    ctx.note_case("replay-file:" + path)
+    ctx.cov["replay"]["c08_pipeline_replay"] = {"scenario": sc.get("id"), "ran": res["cases"], "counters": res.get("counters", {})}
+    return True
